@@ -11,7 +11,7 @@ from harness.props import asm_mc  # noqa: F401
 
 def run(ctx) -> None:
     q = ctx.quick
-    fams = [("scopes", 4 if q else 5), ("nest", 6 if q else 7), ("macro0", 6 if q else 7), ("shadowdata", 5 if q else 6),
+    fams = [("scopes", 4 if q else 6), ("nest", 6 if q else 7), ("macro0", 6 if q else 7), ("shadowdata", 5 if q else 6),
             ("loopleak", 5 if q else 7), ("deferarg", 6 if q else 7)]
     ctx.rule = ("programs = every program over the 'scopes' (<= %d), 'nest' (<= %d), 'macro0' (<= %d), 'shadowdata' (<= %d), 'loopleak' (<= %d) and "
                 "'deferarg' (<= %d) alphabets of MC_Asm + "
